@@ -110,7 +110,7 @@ void harness(void)
     unsigned altlen = (KEYING == 4) ? ALTLEN : (KEYING == 5 ? 80 : 0);
     vh_sym_bytes(o1, ML + 16); vh_sym_bytes(o2, ML + 16);
 
-    r1 = (int)W(KEYING, DEC, key, KL, (KEYING == 3 && ALTNULL) ? (uint8_t *)0 : alt, altlen, nonce, NLEN, COUNTER, counter,
+    r1 = (int)W(KEYING, DEC, key, KL, ((KEYING == 3 || KEYING == 6 || KEYING == 7) && ALTNULL) ? (uint8_t *)0 : alt, altlen, nonce, NLEN, COUNTER, counter,
                 o1, o2, in, inlen, ad, AL, (uint8_t *)&skr, (uint8_t *)&r2, (uint8_t *)sizes);
 
     memset(effkey, 0, KL);
@@ -126,7 +126,7 @@ void harness(void)
         memset(expk, 0, KOBJ); memcpy(expk, tmp, ksz < KOBJ ? ksz : KOBJ);
     }
     CHECK(sizes[0] == KL && sizes[1] == 16 && sizes[2] == 16, "key_size/tag_size/nonce_size");
-    if (KEYING == 2 || KEYING == 3 || KEYING == 5) CHECK(skr == 1, "set_key accepts a full-length key, a zero length and (ISAP) a saved key");
+    if (KEYING == 2 || KEYING == 3 || KEYING == 5 || KEYING == 6 || KEYING == 7) CHECK(skr == 1, "set_key accepts a full-length key, a zero length and (ISAP) a saved key");
     if (KEYING == 4) CHECK(skr == 0, "set_key rejects a wrong length with false");
     CHECK(ncalls == 2 && which == CLS, "each member call is forwarded to the C function of the same algorithm");
     ASSUME(ncalls == 2);
